@@ -286,13 +286,14 @@ func init() {
 				qd = 0 // thorough only
 				td = th + 2
 			}
-			if n == 4 {
-				qd = th + 1
+			if n >= 3 && n <= 4 {
+				qd = th + 1 // the full menu (8 decision kinds x members) is wide: one step past the threshold in the quick tier
 			}
 			parts = append(parts, part{fmt.Sprintf("neofs-votes-n%d", n), func() Driver { return NewVoteDriver(n, n >= 3, full) }, qd, td, 30, 150})
 		}
 		// two ballots and several waits: only setConfig votes for two ids and the clock, deeper
 		parts = append(parts, part{"neofs-votes-n2-two-ballots-timing", func() Driver { return NewVoteTimingDriver(2) }, 6, 8, 30, 150},
+			part{"neofs-votes-n3-two-ballots-timing", func() Driver { return NewVoteTimingDriver(3) }, 6, 8, 30, 150},
 			part{"neofs-votes-n4-two-ballots-timing", func() Driver { return NewVoteTimingDriver(4) }, 0, 7, 30, 150})
 		// without the symmetry reduction (every voter order), thorough tier only
 		parts = append(parts, part{"neofs-votes-n3-all-orders", func() Driver { return NewVoteDriver(3, false, true) }, 0, 5, 30, 150})
